@@ -24,10 +24,22 @@ def make(rng, entry, charset='E', nfaults=None, multi=None, alphabet=V.PLAIN, fa
     if nfaults is None:
         nfaults = rng.choice([0, 1, 1, 2, 3, 5])
     applied = []
+    meet = None
+    if nfaults and kinds is None and rng.random() < 0.15:
+        # two faults that meet: a required segment is missing, and the segment at which that is noticed has an element fault
+        dl = [f for f in F.enumerate_faults(m, doc, rng, charset, entry['icvn'], kinds=['missing_required_seg'])
+              if f['op'] == 'delete' and f.get('ctx') != 'before-SE' and not f.get('slack')]
+        if dl:
+            f = rng.choice(dl)
+            doc, where = F.apply_fault(doc, f)
+            meet = where
+            applied.append(dict(f, line=where, op='delete', ele=None))
     if nfaults:
         fl = [f for f in F.enumerate_faults(m, doc, rng, charset, entry['icvn'], kinds=kinds or F.ELEMENT_KINDS, alphabet=fault_alphabet)
               if f['op'] == 'replace' and f['neutral']]
         rng.shuffle(fl)
+        if meet is not None:
+            fl.sort(key=lambda f: f['line'] != meet)       # stable: faults on the meeting segment first
         used = set()
         for f in fl:
             if len(applied) >= nfaults:
@@ -86,6 +98,13 @@ def make(rng, entry, charset='E', nfaults=None, multi=None, alphabet=V.PLAIN, fa
             s_['st']['vals'][1] = bad
             s_['se']['vals'][1] = bad
             tfaults.append((-1, 'st02_element_error'))
+    if trailer_faults and entry['icvn'] == '00501' and rng.random() < 0.08:
+        # a 5010 set header without its ST03 (the acknowledgement copies ST03 when it is there)
+        sts = [s_ for s_ in doc if s_['id'] == 'ST' and len(s_['vals']) >= 3]
+        if sts:
+            s_ = rng.choice(sts)
+            s_['vals'] = s_['vals'][:2]
+            tfaults.append((-1, 'st03_dropped'))
     if trailer_faults and rng.random() < 0.1:
         # needless trailing separators on a set trailer (a reader-level segment error of the SE itself)
         ses = [s_ for s_ in doc if s_['id'] == 'SE']
